@@ -156,12 +156,17 @@ def param_pulse(pc: PCtx, p: dict):
 
 
 @st.composite
-def parametrized(draw, prog: dict, rate: int = 30, n_assign=(1, 3), custom_var=True):
+def parametrized(draw, prog: dict, rate: int = 30, n_assign=(1, 3), custom_var=True, concrete_prefix=0):
+    """`concrete_prefix`: the first that many ops keep their plain values (they are executed at
+    once on the template and replayed by build)."""
     pc = PCtx(draw, rate, custom_var)
     ops = []
-    for op in prog["ops"]:
+    for k_op, op in enumerate(prog["ops"]):
         o = op["op"]
         new = dict(op)
+        if k_op < concrete_prefix:
+            ops.append(new)
+            continue
         for f in FLOAT_FIELDS.get(o, []):
             if _num(op.get(f)) and pc.maybe():
                 new[f] = pc.float_expr(float(op[f]), nonneg=(f == "amp_on"))
